@@ -245,6 +245,13 @@ def edge_cases(t, tier, seed):
     for bname, mk in bases:
         for si, n in enumerate(sizes):
             base = mk(n)
+            if bname != "zero" and heavy:
+                # (the upper bytes of multi-byte repeat counts stay zero in the random base too)
+                bb = bytearray(base)
+                for q in heavy:
+                    if q < n:
+                        bb[q] = 0
+                base = bytes(bb)
             pos = [n - 1] + ([0] if si == 0 and n > 1 else [])
             if tier != "quick":
                 pos = sorted(set(range(min(n, 6))) | set(range(max(0, n - 6), n)))
